@@ -24,7 +24,8 @@ func (fr *Frame) builtin(b *ssa.Builtin, cc *ssa.CallCommon, pos token.Pos) Val 
 		case *types.Slice:
 			return TV(fr.define("len", app(SInt, "s-len", x)))
 		case *types.Map:
-			l := fr.define("len", Ite(Eq(x, Nil), IntLit(0), fr.mapLen(x)))
+			fr.mapLenFacts(x, u)
+			l := fr.define("len", Ite(Eq(x, Nil), IntLit(0), fr.mapLen(x, u)))
 			fr.R.Sc.Assume(Le(IntLit(0), l))
 			return TV(l)
 		case *types.Pointer:
@@ -89,8 +90,8 @@ func (fr *Frame) builtin(b *ssa.Builtin, cc *ssa.CallCommon, pos token.Pos) Val 
 			domAll := h.Get(fr.st, dn, ArraySort(SInt, ArraySort(ks, SBool)))
 			empty := T(fmt.Sprintf("((as const %s) false)", ArraySort(ks, SBool)), ArraySort(ks, SBool))
 			h.Set(fr.st, dn, fr.define("h", Ite(Eq(x, Nil), domAll, Store(domAll, x, empty))))
-			ln := h.Get(fr.st, mapLenComp, ArraySort(SInt, SInt))
-			h.Set(fr.st, mapLenComp, fr.define("h", Ite(Eq(x, Nil), ln, Store(ln, x, IntLit(0)))))
+			ln := h.Get(fr.st, mapLenComp(mt), ArraySort(SInt, SInt))
+			h.Set(fr.st, mapLenComp(mt), fr.define("h", Ite(Eq(x, Nil), ln, Store(ln, x, IntLit(0)))))
 			return Val{Tuple: []Val{}}
 		}
 		fr.R.unsupported("clear of %s", cc.Args[0].Type())
@@ -336,6 +337,10 @@ func (fr *Frame) onSend(in *ssa.Send, ch Term, x Val) {
 
 func (fr *Frame) onRecv(in *ssa.UnOp, ch Term) Val {
 	elem := types.Unalias(in.X.Type()).Underlying().(*types.Chan).Elem()
+	if fr.isCloseOnly(in.X) {
+		cc0 := fr.R.Heap.Get(fr.st, chanClosedComp, ArraySort(SInt, SBool))
+		fr.assume(Select(cc0, ch, SBool))
+	}
 	v := fr.freshTyped("recv", elem)
 	if in.CommaOk {
 		ok := fr.R.Sc.FreshConst("recvok", SBool)
@@ -353,6 +358,22 @@ func (fr *Frame) execSelect(in *ssa.Select) {
 	}
 	sc.Assume(And(Le(IntLit(lo), idx), Lt(idx, IntLit(int64(len(in.States))))))
 	out := Val{Tuple: []Val{TV(idx), TV(sc.FreshConst("selok", SBool))}}
+	cc0 := fr.R.Heap.Get(fr.st, chanClosedComp, ArraySort(SInt, SBool))
+	allCloseOnly := true
+	var anyClosed []Term
+	for i, s := range in.States {
+		if s.Dir == types.RecvOnly && fr.isCloseOnly(s.Chan) {
+			cl := Select(cc0, fr.termOf(fr.val(s.Chan)), SBool)
+			fr.assume(Implies(Eq(idx, IntLit(int64(i))), cl))
+			anyClosed = append(anyClosed, cl)
+		} else {
+			allCloseOnly = false
+		}
+	}
+	if !in.Blocking && allCloseOnly && len(anyClosed) > 0 {
+		// with a default clause, a ready (closed) channel is preferred over the default
+		fr.assume(Implies(Or(anyClosed...), Not(Eq(idx, IntLit(-1)))))
+	}
 	for _, s := range in.States {
 		if s.Dir == types.RecvOnly {
 			elem := types.Unalias(s.Chan.Type()).Underlying().(*types.Chan).Elem()
@@ -414,4 +435,24 @@ type rangeInfo struct {
 	visKey string
 	keyKey string
 	mt     *types.Map
+}
+
+// mapLenFacts relates a map's length to its domain in the current state: non-negative, and at least one when some
+// key is present (so length 0 means empty).
+func (fr *Frame) mapLenFacts(m Term, mt *types.Map) {
+	if strings.Contains(m.S, "?") {
+		return
+	}
+	sc := fr.R.Sc
+	ks, _ := fr.mapSorts(mt)
+	dom := fr.mapDom(m, mt)
+	ln := fr.mapLen(m, mt)
+	key := "maplen|" + dom.S + "|" + ln.S
+	if fr.R.factsDone[key] {
+		return
+	}
+	fr.R.factsDone[key] = true
+	k := fmt.Sprintf("k?%d", sc.n)
+	sc.n++
+	sc.lines = append(sc.lines, fmt.Sprintf("(assert (and (<= 0 %s) (forall ((%s %s)) (! (=> (select %s %s) (<= 1 %s)) :pattern ((select %s %s))))))", ln.S, k, ks, dom.S, k, ln.S, dom.S, k))
 }
